@@ -2,7 +2,7 @@
 import dns
 import pktgen
 
-SLICE = "TXTTEXT (a TXT built by TXT::try_from(&str) inside a packet, plain and compressed), BUILDW (write_to / write_compressed_to into Vec, growable cursor, fixed cursor, fixed slice) with BUILD follow-ups (the vector-returning entry points)"
+SLICE = "TXTTEXT / ATTRMAP (a TXT built by TXT::try_from(&str) / TXT::try_from(HashMap) inside a packet, plain and compressed), BUILDW (write_to / write_compressed_to into Vec, growable cursor, fixed cursor, fixed slice) with BUILD follow-ups (the vector-returning entry points)"
 RULE = ("seeded packets x {plain, compressed} x writer configurations: Vec with and without existing content; growable cursor at "
         "offset 0 / 2 / k over empty, shorter and longer pre-filled storage; a growable writer whose write() accepts only 1..5 bytes per call; fixed cursor and fixed slice of EVERY capacity from 0 "
         "to len+2 for small packets (sampled for larger ones), at offset 0 and 2. Oracle: the bytes between start and end equal the "
@@ -72,27 +72,45 @@ def cases(rng, tier):
         for ch in ("a", "é"):
             s = (ch * L).encode()[:L] if ch == "a" else ("é" * (L // 2) + ("a" if L % 2 else "")).encode()
             out.append("TXTTEXT " + (s.hex() or "-"))
+    # TXT built from an attribute map (TXT::try_from(HashMap)), also with the keyless entries RFC 6763 6.4 tells readers to ignore
+    import attrgen
+    import pC19
+    for _ in range(600 if tier == "quick" else 6000):
+        m = attrgen.gen_map(rng, pC19.gen_text, keyless=True)
+        c = attrgen.case_of(m)
+        MAPS[c] = m
+        out.append(c)
     return out
 
 
+MAPS = {}
+
+
 def normalize(case, out):
+    if case.startswith("ATTRMAP"):
+        out = out.split(" | ")[0]
     return "ERR" if out.startswith("ERR") else out
 
 
 def classify(case, out):
     if case.startswith("TXTTEXT"):
         return "TXTTEXT"
+    if case.startswith("ATTRMAP"):
+        return "ATTRMAP"
     t = case.split()
     return t[1] + t[2] + ":" + out.split(" ")[0]
 
 
 def nontrivial(case, out):
-    return out.startswith("OK") or case.startswith("TXTTEXT")
+    return out.startswith("OK") or case.startswith("TXTTEXT") or case.startswith("ATTRMAP")
 
 
 def oracle(case, out):
     if out.startswith("PANIC") or out in ("HANG", "CRASH"):
         return "%s for writer configuration %s" % (out, case[:120])
+    if case.startswith("ATTRMAP"):
+        import attrgen
+        return attrgen.packet_oracle(MAPS[case], out) if case in MAPS else None
     if case.startswith("TXTTEXT"):
         parts = out.split(" | ")
         if len(parts) != 4:
@@ -114,7 +132,7 @@ def oracle(case, out):
 
 
 def followups(case, out):
-    if case.startswith("TXTTEXT"):
+    if case.startswith("TXTTEXT") or case.startswith("ATTRMAP"):
         return []
     m, kind, start, sto, t = CFG[case]
     return ["BUILD %s %s" % (m, t)]
